@@ -168,6 +168,14 @@ def handler : Handler := fun op j =>
     match mapFuncOverBlocks (envT tab) (fT tab fn) args kw with
     | .error e => some (errReply e)
     | .ok v => some (reply tab (valJson v) (termsOfVal v))
+  | "mapvoid" => do
+    let fn ← fStr? j "fn"
+    let args ← (← fList? j "args").mapM valOfJson?
+    let kw ← kwOfJson? (← field? j "kwargs")
+    let tab ← tabOf? j
+    match mapVoidFuncOverBlocks (fun a k => (fT tab fn a k).map (fun _ => ())) args kw with
+    | .error e => some (errReply e)
+    | .ok () => some (reply tab (jObj [("none", jB true)]) [])
   | "numblocks" => do
     let args ← (← fList? j "args").mapM valOfJson?
     let kw ← kwOfJson? (← field? j "kwargs")
@@ -177,7 +185,7 @@ def handler : Handler := fun op j =>
     let bound ← kwOfJson? (← field? j "bound")
     let tab ← tabOf? j
     match addFullReduction (fun b => mapFuncOverBlocks (envT tab) (fT tab fn) [] b)
-        (fun l => evalT tab (.cat l)) bound with
+        (ravelCatVia (envT tab) (fun x => evalT tab (.call "meth:ravel" [x] [])) (fun l => evalT tab (.cat l))) bound with
     | .error e => some (errReply e)
     | .ok v => some (reply tab (valJson v) (termsOfVal v))
   | "create" => do
@@ -199,14 +207,14 @@ def handler : Handler := fun op j =>
     | .ok v => some (reply tab (valJson v) (termsOfVal v))
   | "unop" => do
     let opn ← fStr? j "name"
-    let self ← (← fList? j "self").mapM Sym.ofJson?
+    let self ← (← fList? j "blocks").mapM Sym.ofJson?
     let tab ← tabOf? j
     match unop (envT tab) (fun x => evalT tab (.call opn [x] [])) self with
     | .error e => some (errReply e)
     | .ok l => some (reply tab (valJson (.blk l)) l)
   | "binop" => do
     let opn ← fStr? j "name"
-    let self ← (← fList? j "self").mapM Sym.ofJson?
+    let self ← (← fList? j "blocks").mapM Sym.ofJson?
     let other ← valOfJson? (← field? j "other")
     let tab ← tabOf? j
     let opf := fun (x y : Sym) =>
@@ -226,7 +234,7 @@ def handler : Handler := fun op j =>
     | .ok (some l) => some (reply tab (valJson (.blk l)) l)
   | "method" => do
     let name ← fStr? j "name"
-    let self ← (← fList? j "self").mapM Sym.ofJson?
+    let self ← (← fList? j "blocks").mapM Sym.ofJson?
     let extra ← (← fList? j "args").mapM Sym.ofJson?
     let tab ← tabOf? j
     match liftMethod (envT tab) (fun x => evalT tab (.call name (x :: extra) [])) self with
